@@ -29,6 +29,23 @@ import typing as T
 VERIF = os.path.dirname(os.path.dirname(os.path.abspath(__file__)))
 REPO = os.environ.get('VERIF_REPO', '/repo')
 LEAN = os.path.join(VERIF, 'lean')
+# A run against another checkout (VERIF_REPO=<scratch worktree>, used for seeded changes) regenerates
+# MesonModel/Generated/*.lean from THAT tree. It must not touch the committed Lean project, so such a run works
+# on a private copy of it (models, proofs and build products) that is removed at exit.
+if os.environ.get('VERIF_LEAN_PRIVATE') and os.path.isdir(os.environ['VERIF_LEAN_PRIVATE']):
+    LEAN = os.environ['VERIF_LEAN_PRIVATE']          # worker process of a run that already made its copy
+elif os.path.realpath(REPO) != os.path.realpath('/repo') and not os.environ.get('VERIF_LEAN_INPLACE'):
+    import atexit
+    _priv = tempfile.mkdtemp(prefix='mverif-lean-')
+    subprocess.run(['cp', '-a', '--reflink=auto', LEAN, os.path.join(_priv, 'lean')], check=True)
+    LEAN = os.path.join(_priv, 'lean')
+    os.environ['VERIF_LEAN_PRIVATE'] = LEAN
+    _owner_pid = os.getpid()
+
+    def _drop_private_lean(path: str = _priv) -> None:
+        if os.getpid() == _owner_pid:
+            shutil.rmtree(path, ignore_errors=True)
+    atexit.register(_drop_private_lean)
 BIN = os.path.join(LEAN, '.lake', 'build', 'bin')
 
 
@@ -252,15 +269,40 @@ def _norm_ast(node: ast.AST) -> str:
     return ast.dump(node, include_attributes=False)
 
 
+def _find_qual(tree: ast.AST, parts: T.List[str]) -> T.Optional[ast.AST]:
+    node: ast.AST = tree
+    for part in parts:
+        nxt = None
+        for child in ast.iter_child_nodes(node):
+            if isinstance(child, (ast.FunctionDef, ast.AsyncFunctionDef, ast.ClassDef)) and child.name == part:
+                nxt = child
+            elif isinstance(child, (ast.Assign, ast.AnnAssign)):
+                targets = child.targets if isinstance(child, ast.Assign) else [child.target]
+                if any(isinstance(t, ast.Name) and t.id == part for t in targets):
+                    nxt = child
+        if nxt is None:
+            return None
+        node = nxt
+    return node
+
+
 def pin_hash(spec: str) -> str:
-    """spec = 'module:qualname' (function, method or class)"""
+    """spec = 'module:qualname' (function, method, class or module-level assignment)"""
     modname, qual = spec.split(':')
-    obj: T.Any = importlib.import_module(modname)
+    mod = importlib.import_module(modname)
+    obj: T.Any = mod
     for part in qual.split('.'):
         obj = getattr(obj, part) if not isinstance(obj, dict) else obj[part]
     obj = inspect.unwrap(obj) if callable(obj) else obj
-    src = textwrap.dedent(inspect.getsource(obj))
-    return hashlib.sha256(_norm_ast(ast.parse(src)).encode()).hexdigest()[:16]
+    try:
+        src = textwrap.dedent(inspect.getsource(obj))
+        node: T.Optional[ast.AST] = ast.parse(src)
+    except (SyntaxError, TypeError, OSError, IndentationError):
+        # e.g. a method whose body holds a string literal starting in column 0: take the node from the module's AST
+        node = _find_qual(ast.parse(inspect.getsource(mod)), qual.split('.'))
+        if node is None:
+            raise
+    return hashlib.sha256(_norm_ast(node).encode()).hexdigest()[:16]
 
 
 def check_pins(prop_id: str, specs: T.List[str]) -> T.Dict[str, str]:
